@@ -1236,10 +1236,7 @@ class Problem:
         # performed, we evaluate the objective and nonlinear constraint
         # functions at the initial guess.
         if len(self._fun_filter) == 0:
-            # The filter is updated before the callback is called, so a
-            # callback asking to stop must not prevent the result to be built.
-            with suppress(CallbackSuccess):
-                self(self.x0)
+            self(self.x0)
 
         # Find the best point in the filter.
         fun_filter = np.array(self._fun_filter)
